@@ -2,15 +2,16 @@
 
 package k12
 
-// C15 (KangarooTwelve part): explicit-state search over Write/Read/Clone/Swap/Reset
-// histories of the real k12.State with the lane count forced to 1, 2 and 4
-// (newDraft10 is unexported, hence in-package), for several customization
-// strings, against the one-shot KT128 of ref/keccak.
+// C15 (KangarooTwelve, forced lane count): explicit-state search over Write/Read/Clone/Swap/Reset
+// histories of the real k12.State with the lane count forced to 1, 2 and 4, for several
+// customization strings, against the one-shot KT128 of ref/keccak. In-package for ONE reason:
+// the constructor newDraft10(c, lanes) is unexported. No other unexported identifier is named
+// (coverage classes are derived from the model); the same search through the exported
+// NewDraft10 lives in zz_verif_c15_k12pub_test.go and does not depend on this file.
 
 import (
 	"fmt"
 	"os"
-	"sync"
 	"testing"
 
 	"github.com/cloudflare/circl/internal/verifmc"
@@ -25,172 +26,15 @@ func (o *c15K) Read(p []byte) (int, error)  { return o.s.Read(p) }
 func (o *c15K) Reset()                      { o.s.Reset() }
 func (o *c15K) CloneObj() c15hist.Obj       { c := o.s.Clone(); return &c15K{&c} }
 
-func c15Custom(n int) []byte {
-	c := make([]byte, n)
-	for i := range c {
-		c[i] = byte(0xc3 ^ (i * 7) ^ (i >> 8))
-	}
-	return c
-}
-
-// c15KExpect caches KT128(Msg[:absorbed], C, maxOut) per absorbed length; shared by the
-// three lane counts.
-type c15KExpect struct {
-	msg, custom []byte
-	maxOut      int
-	mu          sync.Mutex
-	cache       map[int]*c15KEntry
-}
-
-type c15KEntry struct {
-	once sync.Once
-	out  []byte
-}
-
-func (c *c15KExpect) get(absorbed int, _ byte, n int) []byte {
-	c.mu.Lock()
-	e := c.cache[absorbed]
-	if e == nil {
-		e = &c15KEntry{}
-		c.cache[absorbed] = e
-	}
-	c.mu.Unlock()
-	e.once.Do(func() { e.out = keccak.KT128(c.msg[:absorbed], c.custom, c.maxOut) })
-	if len(e.out) < n {
-		panic("c15: reference output cache too short")
-	}
-	return e.out
-}
-
-func c15KObserve(custom []byte) func(o c15hist.Obj, m c15hist.Model, op c15hist.Op) []string {
-	return func(o c15hist.Obj, m c15hist.Model, op c15hist.Op) []string {
-		s := o.(*c15K).s
-		var n []string
-		L := int(s.lanes) * chunkSize
-		switch op.Kind {
-		case c15hist.KWrite:
-			rem := op.Arg
-			if s.initialTodo > 0 {
-				n = append(n, "write:stalk")
-				tk := s.initialTodo
-				if rem < tk {
-					tk = rem
-				}
-				rem -= tk
-			}
-			if rem == 0 {
-				return n
-			}
-			if s.buf == nil {
-				n = append(n, "write:leaves-first-chunk")
-			}
-			if s.lanes == 1 {
-				n = append(n, "write:lane1-leaf")
-				if s.offset+rem >= chunkSize {
-					n = append(n, "write:lane1-chunk-complete")
-				}
-				return n
-			}
-			off := s.offset
-			if off != 0 || rem < L {
-				n = append(n, "write:buffered")
-				to := L - off
-				if rem < to {
-					to = rem
-				}
-				rem -= to
-				off += to
-				if off == L {
-					n = append(n, "write:buffer-flush")
-					off = 0
-				}
-			}
-			if rem >= L {
-				n = append(n, "write:direct-writeX")
-				rem %= L
-			}
-			if rem > 0 {
-				n = append(n, "write:tail-to-buffer")
-			}
-		case c15hist.KRead:
-			if !s.stalk.IsAbsorbing() {
-				return append(n, "read:squeeze")
-			}
-			n = append(n, "read:finalize")
-			total := m.Absorbed + len(custom) + len(keccak.LengthEncode(uint64(len(custom))))
-			if total <= chunkSize {
-				return append(n, "read:single-chunk")
-			}
-			if s.buf == nil {
-				n = append(n, "read:context-leaves-first-chunk")
-			}
-			if s.lanes == 1 {
-				if (total-chunkSize)%chunkSize != 0 {
-					return append(n, "read:lane1-partial-leaf")
-				}
-				return append(n, "read:lane1-no-partial-leaf")
-			}
-			rem := (total - chunkSize) % L
-			switch {
-			case rem == 0:
-				n = append(n, "read:empty-buffer")
-			case rem <= chunkSize:
-				n = append(n, "read:remaining-buffer-1-leaf")
-			default:
-				n = append(n, "read:remaining-buffer-many-leaves")
-			}
-			if rem > 0 && rem%chunkSize == 0 {
-				n = append(n, "read:remaining-buffer-whole-chunks")
-			}
-		case c15hist.KClone:
-			if !s.stalk.IsAbsorbing() {
-				n = append(n, "clone:squeezing")
-			} else if s.leaf != nil && s.offset > 0 {
-				n = append(n, "clone:with-live-leaf")
-			} else if len(s.buf) > 0 && s.offset > 0 {
-				n = append(n, "clone:with-buffered-data")
-			}
-		case c15hist.KReset:
-			if !s.stalk.IsAbsorbing() {
-				n = append(n, "reset:after-read")
-			}
-			if s.buf != nil {
-				n = append(n, "reset:past-first-chunk")
-			}
-			if s.offset > 0 {
-				n = append(n, "reset:with-buffered-data")
-			}
-		}
-		return n
-	}
-}
-
-const c15B = chunkSize
-
-func c15KSystem(r *verifmc.Run, lanes byte, clen int, exp *c15KExpect) *c15hist.System {
-	custom := exp.custom
-	sys := &c15hist.System{
-		Name:        fmt.Sprintf("k12[lanes=%d,c=%d]", lanes, clen),
-		New:         func() c15hist.Obj { s := newDraft10(custom, lanes); return &c15K{&s} },
-		Rate:        168,
-		WriteSizes:  []int{0, 1, c15B - 1, c15B, c15B + 1, 2*c15B - 1, 2*c15B + 1, 4*c15B - 1, 4 * c15B, 4*c15B + 1, 9*c15B + 1},
-		ReadSizes:   []int{0, 1, 167, 168, 169, 339},
-		AbsKey:      func(a int) string { return fmt.Sprint(a) },
-		ProbeLen:    177,
-		Observe:     c15KObserve(custom),
-		DepthMerged: r.Pick(4, 5),
-		DepthTree:   r.Pick(3, 4),
-	}
-	exp.maxOut = sys.MaxOutput()
-	sys.Expect = exp.get
+func c15KSystem(r *verifmc.Run, lanes byte, clen int, msg []byte) *c15hist.System {
+	custom := c15hist.Custom(clen)
+	sys := c15hist.K12System(fmt.Sprintf("k12[lanes=%d,c=%d]", lanes, clen), int(lanes), clen, len(keccak.LengthEncode(uint64(clen))),
+		func() c15hist.Obj { s := newDraft10(custom, lanes); return &c15K{&s} }, r.Pick(4, 5), r.Pick(3, 4))
+	exp := &c15hist.ExpectCache{MaxOut: sys.MaxOutput(), Fn: func(absorbed int, _ byte, n int) []byte {
+		return keccak.KT128(msg[:absorbed], custom, n)
+	}}
+	sys.Expect = exp.Get
 	return sys
-}
-
-func c15KCustomLens(r *verifmc.Run) []int {
-	if r.Thorough() {
-		return []int{0, 1, c15B - 1, c15B, 4*c15B + 3}
-	}
-	return []int{0, 1, c15B - 1, c15B}
 }
 
 // TestVerifC15_k12: lanes forced to 1, 2, 4. Lane counts 1 and 2 do not depend on the CPU
@@ -198,36 +42,35 @@ func c15KCustomLens(r *verifmc.Run) []int {
 // configuration only lanes = 4 is searched (AVX2 assembly vs scalar 4-way).
 func TestVerifC15_k12(t *testing.T) {
 	if os.Getenv("VERIF_CONFIG") == "appengine" {
-		t.Skip("appengine only switches the sponge's xor back-end; K12 on that back-end is covered by k12_lengths, xof and expander")
+		t.Skip("appengine only switches the sponge's xor back-end; K12 on that back-end is covered by k12_public, k12_lengths, xof and expander")
 	}
 	r := verifmc.Start(t, "C15", "k12")
 	defer r.Finish()
 	if err := keccak.SelfTest(); err != nil {
 		t.Fatal(err)
 	}
-	r.Rule("state = per live object (exact bytes absorbed since reset, phase, squeezed mod 168, squeezed>=168) for the pair (current, clone); a transition replays " +
+	r.Rule("state = per live object (exact bytes absorbed since reset, phase, squeezed mod 168, squeezed>=168, class at last reset) for the pair (current, clone); a transition replays " +
 		"the shortest history on a fresh real k12.State with forced lane count, applies one more operation, compares all output with one-shot KT128 of ref/keccak " +
 		"and reads 177 further bytes from every live object; non-trivial = distinct (lanes, customization length, pair state)")
 	lanesSet := []byte{1, 2, 4}
 	if r.Config() != "default" {
 		lanesSet = []byte{4}
 	}
-	clens := c15KCustomLens(r)
-	probe := c15KSystem(r, 4, 0, &c15KExpect{})
+	clens := []int{0, 1, 8191, 8192}
+	if r.Thorough() {
+		clens = append(clens, 4*8192+3)
+	}
+	probe := c15KSystem(r, 4, 0, nil)
 	msg := verifmc.Msg(probe.MaxInput() + 16)[7:]
 	r.Set("lanes", lanesSet)
 	r.Set("customization_lengths", clens)
 	r.Set("alphabet", probe.Alphabet())
 	r.Set("depth_merged", probe.DepthMerged)
 	r.Set("depth_full_tree", probe.DepthTree)
-	exps := map[int]*c15KExpect{}
-	for _, cl := range clens {
-		exps[cl] = &c15KExpect{msg: msg, custom: c15Custom(cl), cache: map[int]*c15KEntry{}}
-	}
 	if r.Replaying() {
 		for _, l := range []byte{1, 2, 4} {
 			for _, cl := range clens {
-				if c15KSystem(r, l, cl, exps[cl]).Replay(r, msg, r.ReplayCase()) {
+				if c15KSystem(r, l, cl, msg).Replay(r, msg, r.ReplayCase()) {
 					return
 				}
 			}
@@ -237,22 +80,14 @@ func TestVerifC15_k12(t *testing.T) {
 	var systems []*c15hist.System
 	for _, cl := range clens {
 		for _, l := range lanesSet {
-			systems = append(systems, c15KSystem(r, l, cl, exps[cl]))
+			systems = append(systems, c15KSystem(r, l, cl, msg))
 		}
 	}
 	c15hist.SearchAll(r, systems, msg)
 	// vacuity floors: every write path and the remaining-buffer path must have run, per lane count
 	for _, l := range lanesSet {
-		p := fmt.Sprintf("k12[lanes=%d,c=0]:", l)
-		need := []string{"write:stalk", "write:leaves-first-chunk", "read:single-chunk", "read:finalize", "read:squeeze", "clone:squeezing", "reset:after-read", "reset:past-first-chunk"}
-		if l == 1 {
-			need = append(need, "write:lane1-leaf", "write:lane1-chunk-complete", "read:lane1-partial-leaf", "clone:with-live-leaf")
-		} else {
-			need = append(need, "write:buffered", "write:buffer-flush", "write:direct-writeX", "write:tail-to-buffer",
-				"read:remaining-buffer-1-leaf", "read:remaining-buffer-many-leaves", "clone:with-buffered-data", "reset:with-buffered-data")
-		}
-		for _, c := range need {
-			r.RequireCounter(p+c, 3)
+		for _, c := range c15hist.K12Floors(int(l)) {
+			r.RequireCounter(fmt.Sprintf("k12[lanes=%d,c=0]:%s", l, c), 3)
 		}
 	}
 }
